@@ -1,6 +1,9 @@
 package main
 
-import "fmt"
+import (
+	"fmt"
+	"math/rand"
+)
 
 // Program-level feature blocks appended to generated programs: interface values (dynamic dispatch
 // through variables, parameters, results, slices, maps and struct fields of an interface type) and
@@ -475,4 +478,65 @@ func (g *Gen) addShowDemo() *S {
 	name := "showDemo" + tag
 	p.Funcs = append([]*Func{{Name: name, Body: body}}, p.Funcs...)
 	return &S{K: "expr", E: &E{K: "call", Fn: name, NRes: 0}}
+}
+
+// pkgVarProgram: every form of assignment whose targets include variables of an IMPORTED package (lib.Level, lib.Name), at
+// every position of the target list, next to locals, fields and elements; inside functions and at statement level of
+// blocks. The variables and their accessor functions live in the imported package (forced split).
+func pkgVarProgram(r *rand.Rand, id string) *Prog {
+	p := &Prog{ID: id, Pkg: "main", Main: "Main"}
+	gl := func(n string, t *Ty) *E { return &E{K: "var", Ty: t, Name: n, Global: true} }
+	level, count, name := gl("Level", TInt), gl("Count", TInt), gl("Name", TString)
+	p.Globals = []*S{
+		{K: "decl", Names: []string{"Level"}, DeclTy: TInt, VarForm: true, Exprs: []*E{lit(TInt, 1)}, Global: true},
+		{K: "decl", Names: []string{"Count"}, DeclTy: TInt, VarForm: true, Exprs: []*E{lit(TInt, 10)}, Global: true},
+		{K: "decl", Names: []string{"Name"}, DeclTy: TString, VarForm: true, Exprs: []*E{sS("n")}, Global: true},
+	}
+	p.Structs = []*StructDef{{Name: "Box", Fields: []string{"N"}, FTypes: []*Ty{TInt}}}
+	pb := PtrTo("Box")
+	p.Funcs = append(p.Funcs,
+		&Func{Name: "GetLevel", Results: []*Ty{TInt}, Body: []*S{ret(level)}},
+		&Func{Name: "Bump", Body: []*S{{K: "incdec", Lhs: []*E{count}, D: 1}}})
+	multi := func(lhs []*E, rhs []*E) *S { return &S{K: "assign", Lhs: lhs, Exprs: rhs} }
+	k := func() *E { return lit(TInt, int64(2+r.Intn(50))) }
+	show := func(tag string) *S {
+		return pr(sS(tag), level, count, name, v("a", TInt), v("b", TInt), fld(v("bx", pb), "N", TInt), &E{K: "index", Ty: TInt, X: v("xs", SliceOf(TInt)), I: lit(TInt, 1)})
+	}
+	stmts := [][]*S{
+		{multi([]*E{v("a", TInt), level}, []*E{level, k()})},
+		{multi([]*E{level, v("a", TInt)}, []*E{k(), level})},
+		{multi([]*E{v("a", TInt), level, v("b", TInt)}, []*E{k(), k(), k()})},
+		{multi([]*E{level, count}, []*E{count, level})},
+		{multi([]*E{fld(v("bx", pb), "N", TInt), level, &E{K: "index", Ty: TInt, X: v("xs", SliceOf(TInt)), I: lit(TInt, 1)}}, []*E{level, fld(v("bx", pb), "N", TInt), k()})},
+		{multi([]*E{v("a", TInt), name}, []*E{lenOf(name), bin("+", TString, name, sS("!"))})},
+		{asg(level, k()), {K: "opassign", Lhs: []*E{level}, Op: "+", E: k()}, {K: "incdec", Lhs: []*E{count}, D: 1}},
+		{{K: "opassign", Lhs: []*E{name}, Op: "+", E: sS("x")}, {K: "incdec", Lhs: []*E{level}, D: -1}},
+		{multi([]*E{v("a", TInt), v("b", TInt)}, []*E{&E{K: "call", Fn: "GetLevel", Ty: TInt, NRes: 1}, count}), {K: "expr", E: &E{K: "call", Fn: "Bump", NRes: 0}}},
+	}
+	body := []*S{dcl("a", lit(TInt, 0)), dcl("b", lit(TInt, 0)), dcl("bx", newS("Box", "N", lit(TInt, 5))), dcl("xs", &E{K: "slicelit", Ty: SliceOf(TInt), Args: []*E{lit(TInt, 1), lit(TInt, 2)}}), show("start")}
+	for i, idx := range r.Perm(len(stmts)) {
+		ss := stmts[idx]
+		switch i % 3 {
+		case 1:
+			ss = []*S{{K: "if", Cond: bin(">", TBool, level, lit(TInt, -1000)), Then: ss}}
+		case 2:
+			ss = []*S{{K: "for", Init: dcl("i", lit(TInt, 0)), Cond: bin("<", TBool, v("i", TInt), lit(TInt, 2)), Post: &S{K: "incdec", Lhs: []*E{v("i", TInt)}, D: 1}, Body: ss}}
+		}
+		body = append(body, ss...)
+		body = append(body, show(fmt.Sprintf("s%d", idx)))
+	}
+	p.Funcs = append(p.Funcs, &Func{Name: "Main", Body: body})
+	p.Split = &pkgSplit{lib: map[string]bool{"GetLevel": true, "Bump": true}, vars: map[string]bool{"Level": true, "Count": true, "Name": true}, path: []string{"lib", "app/lib"}[r.Intn(2)]}
+	return p
+}
+
+func init() {
+	// C07 corpus: assignments to variables of an imported package (both code versions are explored)
+	extraCorpus = append(extraCorpus, func(c *Ctx, r *rand.Rand) []map[string]string {
+		var out []map[string]string
+		for i := 0; i < c.pick(6, 60); i++ {
+			out = append(out, pkgVarProgram(r, fmt.Sprintf("c07-pkgvar-%d", i)).Files(false, nil))
+		}
+		return out
+	})
 }
